@@ -33,7 +33,7 @@ RULE_TEXT = {
     "KILL-1": "a Live->Zero transition outside Rc::drop happens only after the object's table was seen empty (or purged)",
     "SYM-1": "adopt records exactly Forward(other) in this's table and Backward(this) in other's (Loopback for the same handle), +1 each",
     "SYM-2": "unadopt removes exactly the mirror image of what adopt records, by 1",
-    "SYM-3": "an object dying with adoption links removes its Forward and Backward records, by the recorded multiplicity, from every peer named in its table before its contents are destroyed",
+    "SYM-3": "an object dying with adoption links removes its Forward and Backward records, by the recorded multiplicity, from every peer named in its table before its contents are destroyed; a table installed in another object was seen empty when it was taken",
     "SYM-5": "what adopt / unadopt record for a pair of objects does not depend on which handle objects name the pair (unadopt is the inverse of adopt for the same two objects)",
     "SYM-4": "recording a link adds exactly one from a zero start; lowering is checked and never writes back a zero count",
     "API-1": "documented guard <=> outcome and net effects of try_unwrap, get_mut, make_mut, upgrade, downgrade, raw-pointer round trips, increment/decrement_strong_count, ptr_eq",
